@@ -78,7 +78,7 @@ pub open spec fn bin_vals(vals: Seq<Seq<u8>>, n: nat) -> Seq<Seq<u8>>
 pub open spec fn strs(v: Seq<String>) -> Seq<Seq<char>> { v.map_values(|s: String| s@) }
 
 //@lift name=construct::classify_value file=src/search.rs block=".filter_map(|s|" as="fn classify_value(s: Vec<u8>, a_type: &String, bin_attr_vals: &mut HashMap<Vec<Vec<u8>>>, any_binary: &mut bool) -> (r: Option<String>)"
-//@ sub "any_binary = true;" => "*any_binary = true;" count=*
+//@ sub "any_binary = " => "*any_binary = " count=*
 //@ sub "std::str::from_utf8(" => "verif_from_utf8(" count=*
 //@ sub "s.to_owned()" => "verif_string_of(s)" count=*
 //@ spec
